@@ -98,7 +98,8 @@ func WithUnauthorizedCallback(callback UnauthorizedCallback) AuthorizeOption {
 }
 
 func unauthorized(w http.ResponseWriter, r *http.Request, err error, callback UnauthorizedCallback) {
-	writer := response.NewHeaderOnceResponseWriter(w)
+	// 回调若未显式设置状态码就写入正文，状态码也必须是 401，而不是隐式的 200。
+	writer := response.NewHeaderOnceResponseWriterWithCode(w, http.StatusUnauthorized)
 
 	if err != nil {
 		detailAuthLog(r, err.Error())
